@@ -965,7 +965,7 @@ class GraphParser:
             m = self.__class__.REC_RHS_NODE.match(right)
             if not m:
                 # Bad nodes should have been detected earlier; fail loudly
-                raise ValueError(  # pragma: no cover
+                raise GraphParseError(
                     f"Unexpected graph expression: '{right}'"
                 )
             suicide_char, name, offset, output, opt_char = m.groups()
